@@ -13,6 +13,7 @@ import (
 	"encoding/binary"
 	"encoding/hex"
 	"fmt"
+	"strings"
 
 	"github.com/bitcoin-sv/block-headers-service/config"
 	"github.com/bitcoin-sv/block-headers-service/internal/chaincfg/chainhash"
@@ -416,3 +417,110 @@ func (r *c14run) hostile(g *c14gen, run func(string) error) error {
 	}
 	return nil
 }
+
+// streams: 2-5 frames on one reader.  Each frame is valid or rejected for exactly one reason (above its type's
+// limit - also with a complete valid frame hidden in the oversize payload -, refused by the payload decoder,
+// wrong magic, unknown / non-UTF-8 command, bad checksum); the last one may be truncated and a frame above the
+// GLOBAL limit (whose payload the reader does not skip) may appear anywhere.  What one ReadMessage leaves on the
+// reader is what the next one parses: after a rejected but fully framed frame the following frames must still be read.
+func (r *c14run) streams(g *c14gen, run func(string) error) error {
+	c := r.c
+	prod := uint32(config.ExcessiveBlockSize)
+	main := uint32(wire.MainNet)
+	small := []string{"ping", "verack", "pong", "getaddr", "sendheaders", "feefilter", "mempool", "getheaders", "inv", "version",
+		"addr", "headers", "reject", "getdata", "notfound", "getblocks", "filteradd", "filterclear", "filterload", "protoconf", "authch"}
+	tight := []string{"ping", "verack", "pong", "getaddr", "sendheaders", "feefilter", "mempool", "filterclear", "version", "getcfcheckpt"}
+	n := c.Pick(600, 8000)
+	for i := 0; i < n; i++ {
+		pver := uint32(70013)
+		if i%7 == 6 {
+			pver = g.pver()
+		}
+		ebs := prod
+		if i%11 == 10 {
+			ebs = 1000000 // maxMessagePayload = 2 MiB
+		}
+		wire.SetLimits(ebs)
+		mmp := wire.VerifMaxMessagePayload()
+		valid := func() []byte {
+			cmd := small[g.r.Intn(len(small))]
+			if g.r.Intn(12) == 0 {
+				cmd = "tx"
+			}
+			p := g.validPayload(cmd, pver, false)
+			if p == nil || len(p) > 1500 {
+				cmd, p = "verack", nil
+			}
+			return c14Frame(main, []byte(cmd), p)
+		}
+		rejected := func() []byte {
+			switch g.r.Intn(9) {
+			case 0, 1, 2: // above the type's limit, correct checksum
+				cmd := tight[g.r.Intn(len(tight))]
+				m0, _ := wire.VerifMakeEmptyMessage(cmd)
+				lim := int(m0.MaxPayloadLength(pver))
+				var p []byte
+				switch g.r.Intn(3) {
+				case 0:
+					p = g.bytesN(lim + 1)
+				case 1:
+					p = g.bytesN(lim + 1 + g.r.Intn(60))
+				default: // a complete valid frame (or two) inside the oversize payload
+					p = append(valid(), g.bytesN(g.r.Intn(3))...)
+					if g.r.Intn(3) == 0 {
+						p = append(p, valid()...)
+					}
+					for len(p) <= lim {
+						p = append(p, valid()...)
+					}
+				}
+				return c14Frame(main, []byte(cmd), p)
+			case 3: // refused by the payload decoder
+				ps := [][]byte{append(c14Varint(wire.MaxInvPerMsg+1), g.bytesN(g.r.Intn(40))...), {0xfd, 0x01, 0x00}, g.bytesN(3)}
+				return c14Frame(main, []byte([]string{"inv", "getdata", "headers", "addr"}[g.r.Intn(4)]), ps[g.r.Intn(len(ps))])
+			case 4:
+				f := valid()
+				binary.LittleEndian.PutUint32(f[0:4], []uint32{uint32(wire.TestNet3), uint32(wire.SimNet), main ^ 0x100, g.r.Uint32()}[g.r.Intn(4)])
+				return f
+			case 5:
+				cmds := [][]byte{[]byte("foo"), []byte("Ping"), {0xff, 0xfe}, {0xc3, 0x28}, []byte("ver\x00ack"), g.bytesN(12)}
+				return c14Frame(main, cmds[g.r.Intn(len(cmds))], g.bytesN(g.r.Intn(60)))
+			case 6:
+				f := valid()
+				f[20+g.r.Intn(4)] ^= 1 << uint(g.r.Intn(8))
+				return f
+			case 7:
+				// embedded header-like garbage: payload that itself looks like the start of a huge frame
+				inner := c14Frame(main, []byte("inv"), nil)
+				binary.LittleEndian.PutUint32(inner[16:20], 1000000)
+				return c14Frame(main, []byte("ping"), append(inner, g.bytesN(g.r.Intn(8))...))
+			}
+			// above the GLOBAL limit: the reader does not skip anything (by design the stream is lost)
+			f := c14Frame(main, []byte("reject"), g.bytesN(g.r.Intn(30)))
+			binary.LittleEndian.PutUint32(f[16:20], mmp+1+uint32(g.r.Intn(1000)))
+			return f
+		}
+		k := 2 + g.r.Intn(4)
+		var parts []string
+		for j := 0; j < k; j++ {
+			var f []byte
+			switch {
+			case j == 0 && i%3 != 2:
+				f = rejected() // most streams open with a rejected frame followed by valid ones
+			case g.r.Intn(3) == 0:
+				f = rejected()
+			default:
+				f = valid()
+			}
+			if j == k-1 && g.r.Intn(8) == 0 && len(f) > 1 {
+				f = f[:1+g.r.Intn(len(f)-1)] // truncated last frame
+			}
+			parts = append(parts, hex.EncodeToString(f))
+		}
+		if err := run(fmt.Sprintf("S %d %d %d %s", pver, ebs, main, strings.Join(parts, ";"))); err != nil {
+			return err
+		}
+	}
+	return nil
+}
+
